@@ -313,21 +313,10 @@ func runC20(c *Ctx) {
 			}
 		}
 	}
-	if wpd := c.P.Method("wire", "Session", "writeParameterDescription"); wpd != nil {
-		list := ssa.Value(wpd.Params[2])
-		for _, ci := range core.Calls(wpd) {
-			if isWriterMethod(ci, "AddInt16") {
-				x, ok := core.IsLenOf(core.StripConv(ci.Common().Args[1]))
-				R.Check(ok && x == list, "C20.R4", "writeParameterDescription:announces-length", c.at(ci), "Describe announces exactly the length ParseParameters reported (len of the declared list itself)", "count is len() of the list handed in", "the announced count is not len() of the declared list itself")
-			}
-		}
-	}
-	if hd := c.P.Method("wire", "Session", "handleDescribe"); hd != nil {
-		wpd := c.P.Method("wire", "Session", "writeParameterDescription")
-		for _, ci := range callsIn(hd, calleeIs(wpd)) {
-			a := ci.Common().Args
-			_, p := pathOf(a[len(a)-1])
-			R.Check(p == ".parameters", "C20.R4", "handleDescribe:passes-declared-list", c.at(ci), "Describe hands the statement's own parameter list to ParameterDescription", "writeParameterDescription(statement.parameters)", "the list passed is not statement.parameters")
+	for _, s := range c.paramDescriptionSites() {
+		R.Check(s.countIsLen, "C20.R4", "writeParameterDescription:announces-length", c.at(s.count), "Describe announces exactly the length ParseParameters reported (len of the declared list itself)", "count is len() of the list handed in", "the announced count is not len() of the declared list itself")
+		for i, w := range s.at {
+			R.Check(strings.HasSuffix(s.countPath[i], ".parameters"), "C20.R4", "handleDescribe:passes-declared-list", c.at(w), "Describe hands the statement's own parameter list to ParameterDescription", "writeParameterDescription(statement.parameters)", "the list passed is not statement.parameters")
 		}
 	}
 }
